@@ -430,6 +430,17 @@ class Tr:
                 r = self.fresh("r")
                 self.last_err = spec.get("err")
                 return ("let", f"({r}, {spec['pair']})", term, k(r))
+            if "ppair" in spec:      # P-valued: match term with | .val (r, <var>) => .. | .panic => ..
+                r, sp = self.fresh("r"), self.fresh("s")
+                self.may_panic = True
+                self.last_err = spec.get("err")
+                return ("match", term, [([f".val ({r}, {spec['ppair']})"], k(r)),
+                                        ([f".panic {sp}"], ctx.panic(self.site("callee panicked")))])
+            if spec.get("pval"):
+                r, sp = self.fresh("r"), self.fresh("s")
+                self.may_panic = True
+                self.last_err = spec.get("err")
+                return ("match", term, [([f".val {r}"], k(r)), ([f".panic {sp}"], ctx.panic(self.site("callee panicked")))])
             if "ok_rebinds" in spec:
                 self.pending_ok = spec["ok_rebinds"]
                 self.last_err = spec.get("err")
@@ -494,6 +505,9 @@ class Tr:
             return self.exs([recv] + args, ctx, lambda ts: k(sub.format(*[self.par(t) for t in ts])))
         if kind == "lamfmt":      # recv.m(|x| body): closure translated as a lambda term (must be simple)
             clo = args[0]
+            if clo[0] == "path" and "::".join(clo[1]) in self.tb.fns:
+                lam = self.tb.fns["::".join(clo[1])][0]
+                return self.ex(recv, ctx, lambda t: k(spec["fmt"].format(self.par(t), lam)))
             if clo[0] != "closure" or len(clo[1]) != 1:
                 raise Unsupported(f"{self.fname}: .{name} needs a one-parameter closure")
             try:
